@@ -17,14 +17,16 @@ import (
 )
 
 type Ctx struct {
-	Prop   string
-	Tier   string
-	Seed   uint64
-	Batch  int
-	NBatch int
-	Mode   string // sub-mode within a property (e.g. "race", "strace", "tz")
-	Res    *wk.Result
-	start  time.Time
+	Prop    string
+	Tier    string
+	Seed    uint64
+	Batch   int
+	NBatch  int
+	MBatch  int    // index among the batches of the same mode
+	MNBatch int    // number of batches of the same mode (partitions of exhaustive enumerations)
+	Mode    string // sub-mode within a property (e.g. "race", "strace", "tz")
+	Res     *wk.Result
+	start   time.Time
 }
 
 func (c *Ctx) Thorough() bool { return c.Tier == "thorough" }
@@ -49,6 +51,8 @@ func main() {
 	batch := flag.Int("batch", 0, "batch index")
 	nbatch := flag.Int("nbatch", 1, "number of batches")
 	mode := flag.String("mode", "", "sub-mode")
+	mbatch := flag.Int("mbatch", -1, "batch index within the mode")
+	mnbatch := flag.Int("mnbatch", -1, "number of batches of the mode")
 	out := flag.String("out", "", "result file")
 	flag.Parse()
 
@@ -63,7 +67,10 @@ func main() {
 		os.Exit(2)
 	}
 	debug.SetGCPercent(200)
-	c := &Ctx{Prop: *prop, Tier: *tier, Seed: *seed, Batch: *batch, NBatch: *nbatch, Mode: *mode, start: time.Now()}
+	if *mbatch < 0 || *mnbatch <= 0 {
+		*mbatch, *mnbatch = *batch, *nbatch
+	}
+	c := &Ctx{Prop: *prop, Tier: *tier, Seed: *seed, Batch: *batch, NBatch: *nbatch, MBatch: *mbatch, MNBatch: *mnbatch, Mode: *mode, start: time.Now()}
 	c.Res = wk.New(*prop, *tier, *seed, *batch)
 	c.Res.Env = fmt.Sprintf("TZ=%s mode=%s GOMAXPROCS=%d", os.Getenv("TZ"), *mode, runtime.GOMAXPROCS(0))
 	f(c)
